@@ -444,6 +444,11 @@ func ParseURI(uri SIPStr, puri *PsipURI) (ErrorURI, int) {
 			case '0', '1', '2', '3', '4', '5', '6', '7', '8', '9':
 				// in case this might be the port no, compute it
 				portNo = portNo*10 + int(c-'0')
+				if portNo > 65535 {
+					// too big: saturate (no integer wrap-around), the
+					// range is checked when the port end is found
+					portNo = 65536
+				}
 			case '[', ']', ':':
 				return ErrURIBadChar, i
 			default:
@@ -517,6 +522,9 @@ func ParseURI(uri SIPStr, puri *PsipURI) (ErrorURI, int) {
 			switch c {
 			case '0', '1', '2', '3', '4', '5', '6', '7', '8', '9':
 				portNo = portNo*10 + int(c-'0')
+				if portNo > 65535 {
+					portNo = 65536 // saturate, avoid integer wrap-around
+				}
 			case ';':
 				puri.Port.Set(s, i)
 				if portNo > 65535 {
